@@ -52,18 +52,25 @@ class SurfaceSubdivision(Logger):
         self.mesh = self._input
 
     @allowed_mesh_types(SurfaceMesh)
-    def triangulate_face(self, face_id: int) :
+    def triangulate_face(self, face_id: int, sides: set = None) :
         """Triangulates the face "face_id"
 
         Parameters:
             face_id (int): the face to triangulate
+            sides (set, optional): the set of all sides of faces of the mesh, as sorted pairs. Computed if not provided.
         """
         F = self.mesh.faces[face_id]
         if len(F)<4: return # nothing to do
         elif len(F)==4:
             A,B,C,D = self.mesh.faces[face_id]
+            if sides is None: sides = self._sides()
+            if keyify(B,D) in sides:
+                if keyify(A,C) in sides: # both diagonals are already edges of the mesh
+                    return self.split_face_as_fan(face_id)
+                A,B,C,D = B,C,D,A # split along the other diagonal
             self.mesh.faces[face_id] = [A,B,D]
             self.mesh.faces.append([B,C,D])
+            sides.add(keyify(B,D))
         else:
             self.split_face_as_fan(face_id)
 
@@ -86,13 +93,17 @@ class SurfaceSubdivision(Logger):
         for v in f:
             self.mesh.edges.append(keyify(v,iV))
 
+    def _sides(self) -> set:
+        return {keyify(F[i],F[(i+1)%len(F)]) for F in self.mesh.faces for i in range(len(F))}
+
     def triangulate(self):
         """Triangulates all faces of a mesh.
             Calls triangulate_face on every faces.
         """       
+        sides = self._sides()
         for f in self.mesh.id_faces:
             if len(self.mesh.faces[f])!= 3 :
-                self.triangulate_face(f)
+                self.triangulate_face(f, sides)
 
     def _split_edges(self, newMeshData) -> dict:
         """Appends the middle of every side of every face to newMeshData.vertices. Returns the map edge -> new vertex.
